@@ -99,23 +99,67 @@ def do_op(e, prog, b, op, i, g):
     return r.fields[0], None
 
 
-def seg_equal(a, b):
-    """structural equality of two normalised segment lists -> formula (False when shapes differ)"""
+_SEGI = [0]
+
+
+def seg_len(a):
+    n = 0
+    for k, v in a:
+        n = add(n, len(v) if k == 'b' else v.len())
+    return n
+
+
+def seg_content(a, i):
+    """byte at (symbolic) position i of a normalised segment list"""
+    off = 0
+    parts = []
+    for k, v in a:
+        if k == 'b':
+            for j, x in enumerate(v):
+                parts.append((eq(i, add(off, j)), x))
+            off = add(off, len(v))
+        else:
+            ln = v.len()
+            parts.append((and_(le(off, i), lt(i, add(off, ln))), v.buf.at(add(v.start, sub(i, off)))))
+            off = add(off, ln)
+    e = z3.IntVal(-1)
+    for c, x in reversed(parts):
+        e = ite(c, x, e)
+    return e
+
+
+def seg_structural(a, b):
+    """structural equality of two normalised segment lists -> formula, or None when the shapes differ"""
     if len(a) != len(b):
-        return False
+        return None
     cs = []
     for (k1, v1), (k2, v2) in zip(a, b):
         if k1 != k2:
-            return False
+            return None
         if k1 == 'b':
             if len(v1) != len(v2):
-                return False
+                return None
             cs += [eq(x, y) for x, y in zip(v1, v2)]
         else:
             same = v1 is v2 or (isinstance(v1, Str) and isinstance(v2, Str) and v1.buf is v2.buf and eq(v1.start, v2.start) is True and eq(v1.end, v2.end) is True)
             if not same:
-                return False
+                return None
     return and_(*cs)
+
+
+def seg_equal(a, b):
+    """equality of two normalised segment lists as a formula that is only ever used *negated* inside a violation
+    query (`not equal` is existential): same shape -> bytewise formula; different shapes (e.g. bytes staged in a
+    local array and written as one slice) -> lengths equal and no position i (a fresh variable, existential in the
+    negated query) at which the contents differ."""
+    st = seg_structural(a, b)
+    if st is not None:
+        return st
+    _SEGI[0] += 1
+    i = z3.Int('segi!%d' % _SEGI[0])
+    la, lb = seg_len(a), seg_len(b)
+    differ = and_(le(0, i), lt(i, la), ne(seg_content(a, i), seg_content(b, i)))
+    return and_(eq(la, lb), not_(differ))
 
 
 def run_history(e, prog, ctor, ops):
